@@ -248,7 +248,7 @@ theorem isOrderCert_sound (p : ℤ) (O : Lattice) (h : isOrderCert p O = true) :
     O.denom ≠ 0 ∧ IsHNF O.basis ∧ (1 : H p) ∈ hLat p O ∧ hLat p O * hLat p O ≤ hLat p O := by
   unfold isOrderCert at h
   simp only [Bool.and_eq_true] at h
-  obtain ⟨⟨hw, h1⟩, hc⟩ := h
+  obtain ⟨⟨⟨hw, h1⟩, hc⟩, _⟩ := h
   obtain ⟨hd, hn⟩ := latWf_sound O hw
   exact ⟨hd, hn, one_mem_of_contains p O hd hn h1, prodsContained_sound p O O O hc hd hd hd hn⟩
 
